@@ -247,8 +247,60 @@ def bss_case(rng):
     return case
 
 
+def check_fixed_width(ctx, g):
+    """ISAs whose nop is four bytes (ARM64, MIPS32): alignment padding after code is made of whole nops and stays
+    inside its byte interval; judged directly on the module (geometry, alignment, protobuf round trip)"""
+    import io
+    import logging
+
+    import gtirb
+    import gtirb_functions
+    from gtirb_test_helpers import add_code_block, add_text_section, create_test_module
+
+    import gtirb_rewriting._auxdata as A
+    from gtirb_rewriting import RewritingContext
+
+    logging.disable(logging.CRITICAL)
+    ctx.case(g, sample=g if len(ctx.samples) < 5 else None, nontrivial=True)
+    ctx.count("fixed-width:" + g["isa"])
+    isa = getattr(gtirb.Module.ISA, g["isa"])
+    ir, m = create_test_module(gtirb.Module.FileFormat.ELF, isa)
+    m.byte_order = gtirb.Module.ByteOrder.Big if g["isa"] == "MIPS32" else gtirb.Module.ByteOrder.Little
+    _, bi = add_text_section(m, address=0x1000)
+    nop = b"\x1f\x20\x03\xd5" if g["isa"] == "ARM64" else b"\x00\x00\x00\x00"
+    ret = b"\xc0\x03\x5f\xd6" if g["isa"] == "ARM64" else b"\x03\xe0\x00\x08" + b"\x00\x00\x00\x00"
+    b1 = add_code_block(bi, nop * g["n1"] + ret)
+    b2 = add_code_block(bi, nop * g["n2"] + ret)
+    A.alignment.get_or_insert(m)[b2] = g["align"]
+    rc = RewritingContext(m, gtirb_functions.Function.build_functions(m))
+    rc.insert_at(b1, 4 * g["at"], emodify.make_patch("nop\n" * g["count"]))
+    try:
+        rc.apply()
+    except Exception as e:  # noqa: BLE001
+        ctx.violation("C05:fixed-width:raises", "%s: apply() raised %s: %s" % (g["isa"], type(e).__name__, str(e)[:100]), g)
+        return
+    for x in m.byte_intervals:
+        if len(x.contents) > x.size:
+            ctx.violation("C05:fixed-width:contents-exceed-interval", "%s: a byte interval of size %d holds %d bytes" % (g["isa"], x.size, len(x.contents)), g)
+        for blk in x.blocks:
+            if blk.offset + blk.size > x.size:
+                ctx.violation("C05:fixed-width:block-bounds", "%s: block [%d, +%d) does not fit its byte interval (size %d)" % (g["isa"], blk.offset, blk.size, x.size), g)
+    if b2.address is None or b2.address % g["align"]:
+        ctx.violation("C05:fixed-width:alignment", "%s: the block with alignment %d is at %s" % (g["isa"], g["align"], b2.address), g)
+    try:
+        buf = io.BytesIO()
+        ir.save_protobuf_file(buf)
+        buf.seek(0)
+        gtirb.IR.load_protobuf_file(buf)
+    except Exception as e:  # noqa: BLE001
+        ctx.violation("C05:fixed-width:round-trip", "%s: save/load raised %s: %s" % (g["isa"], type(e).__name__, str(e)[:100]), g)
+
+
 def run(ctx):
     pending = []
+    for k in range(ctx.budget(24, 300)):
+        check_fixed_width(ctx, {"fixed_width": True, "isa": ["ARM64", "MIPS32"][k % 2], "n1": 1 + k % 3, "n2": 1 + (k // 2) % 2,
+                                "align": [8, 16, 32][k % 3], "at": k % 2, "count": 1 + (k // 3) % 3})
     for _ in range(ctx.budget(60, 1500)):
         check_case(ctx, bss_case(ctx.rng), pending)
     for c in LE.load_corpus():
@@ -264,6 +316,9 @@ def run(ctx):
 def replay(ctx, payload):
     pending = []
     case = payload.get("case", payload)
+    if case.get("fixed_width"):
+        check_fixed_width(ctx, case)
+        return
     case = {k: v for k, v in case.items() if k != "fault"}
     check_case(ctx, case, pending)
     flush(ctx, pending)
